@@ -60,7 +60,10 @@ Timeline(e) ==
           THEN F2(ft.goneat = -1, pr, e, <<"never-expiring-document-gone", c, k>>, -1, ft.goneat)
           ELSE F2(ft.goneat = -1 \/ ft.goneat >= d.dl, pr, e, <<"gone-before-deadline", c, k>>, d.dl, ft.goneat)
                + F(ft.goneat # -1 /\ ft.goneat <= d.dl + Slack, e, <<"not-expired-in-time", c, k>>, d.dl, <<ft.goneat, ft.watched>>)
-               + F(ft.delevat # -1 /\ ft.delevat <= d.dl + Slack, e, <<"no-deletion-event", c, k>>, d.dl, ft.delevat)
+               \* the document went in time but the running feed was not told: the feed was starved (C16) of a mutation (C08)
+               + F2(ft.delevat # -1 /\ ft.delevat <= d.dl + Slack,
+                    IF ft.goneat # -1 /\ ft.goneat <= d.dl + Slack THEN {"C14", "C16", "C08"} ELSE {"C14"},
+                    e, <<"no-deletion-event", c, k>>, d.dl, ft.delevat)
     IN
     /\ docs' = docs
     /\ nfail' = nfail + SumOver(EColls \X EKeys, LAMBDA p : f(p[1], p[2]))
